@@ -26,6 +26,24 @@ CHECKS = {
         text="Seeded search over histories of public Model edits (all single and batch mutators, ~25% deliberately rejected, poisoned functions that kill a query while the memo is being built, dangling/cyclic content) interleaved with queries; after every op the edited model must refine a model freshly rebuilt from its own content (same op outcome, same content, same ids, same query answers), a refused edit must change nothing, names must stay disjoint and re-usable. Sampling, not proof; ~2M histories/hour.",
         note="Trusted: rebuild through public add_* from get_raw_* copies is 'a freshly built model with the same content'; Model._data read directly (no public getter). Cannot see wrong evaluation that a fresh model shares (C01/C02/C13).",
     ),
+    "C04": dict(
+        engine="simtime", category="exploration", design_ref="DESIGN.md §4.2",
+        technique="deterministic simulation: seeded call histories (legal and deliberately illegal continuations, overrides, parameter changes, steady-state runs, clears) on one Simulator in dyadic model time, checked op by op against a reference model (T, y, params) with closed-form piecewise solutions; integrator seam (real Scipy / exact stub)",
+        text="Seeded search over histories of simulate / time-course / protocol calls interleaved with parameter updates, variable overrides, steady-state runs, clear_results and get_result on ONE Simulator over closed-form families (incl. a non-autonomous one that distinguishes absolute from integrator-relative time). After every op: refusal iff requested end <= time reached, strictly increasing absolute axis, every requested later point exactly once, history never rewritten, states equal the closed-form solution from the previous segment's final state (override applied) under the parameters in force, recorded segment parameters right.",
+        note="Closed-form oracle (matrix exponential from the family spec). Real Scipy runs judged at 2e-5*(1+|x|), ExactLinear stub runs at 1e-9. After an integration failure nothing is demanded until clear_results. Whether a reported steady state is steady is C15's question, not charged here.",
+    ),
+    "C14": dict(
+        engine="simtime", category="exploration", design_ref="DESIGN.md §4.2 (C14 additions)",
+        technique="deterministic simulation: seeded protocol layouts (1-4 steps, unequal durations, repeated values, ragged steps) started on fresh and continued simulators (after simulate, override, steady state, clear), reference model with exact switching times; exact point-set oracle for the time-course form; per-row flux oracle",
+        text="Same machine as C04 with a protocol-heavy op mix: step i's values must govern (cum_{i-1}, cum_i] shifted by the start time, also after overrides / steady-state runs / clears; the time-course form must return exactly start + requested-inside + boundaries, each once; fluxes of a row inside step i must equal the rate law at that row's state under step i's values. Families F1/F4 make every later state depend on every switching time.",
+        note="Ragged steps (a step names only the parameters it changes) are a separate sub-check with the expectation 'unnamed parameters keep their value'. Flux views are read from a deep copy of the result so that reading cannot disturb the run.",
+    ),
+    "C15": dict(
+        engine="steady", category="exploration", design_ref="DESIGN.md §4.2 (C15 paragraph)",
+        technique="deterministic simulation with stepper fault injection: seeded steady-state searches on real Scipy with failed-step / non-finite faults injected at poll n through the scipy.integrate.ode seam, budget exhaustion on networks without steady state, relaxation-time sweep for bounded liveness in simulated time",
+        text="Decides (i) failure reporting: under injected stepper faults and on networks without steady state (accumulation, growth, non-autonomous drive, scan rows with k=0) the outcome must be a failure value / NaN row, never a state; (ii) bounded liveness in simulated time: stable networks with relaxation times 0.05..400 must report success within the 1000-poll budget. The clause 'a reported success equals the analytic steady state, fluxes balance, default/user y0, abs/rel norm' is evaluated on the same runs as plain seeded sampling.",
+        note="Only the repo's real Scipy integrator (the loop under test lives there). Accuracy bound 1e-4*(1+|x*|) + 100*tolerance. The accuracy clause is a pure function of the input: sampled, not decided by scheduling/fault search.",
+    ),
     "C19": dict(
         engine="crash", category="fault_enumeration", design_ref="DESIGN.md §4.6",
         technique="deterministic simulation with crash injection: forked process incarnations killed at every traced line of mxlpy/parallel.py and at byte offsets of every result file (torn writes), reruns compared with a cache-free reference",
@@ -37,6 +55,8 @@ CHECKS = {
 ENGINES = [
     {"name": "simkit", "path": "simkit/", "serves_properties": sorted(CHECKS), "kind_free_text": "seeded scheduler core: labelled PRNG streams, fork-based runner with watchdog, trace digests, ddmin shrinker, replay files, known-finding matching, evidence writer"},
     {"name": "crash", "path": "simkit/machines/crash.py", "serves_properties": ["C19"], "kind_free_text": "crash-history machine: fork+settrace kill points, CrashPath torn writes (simkit/crashfs.py), SimPool (simkit/simpool.py)"},
+    {"name": "simtime", "path": "simkit/machines/simtime.py", "serves_properties": ["C04", "C14"], "kind_free_text": "simulator-history machine: reference model of time keeping, closed-form families (simkit/models.py), integrator seam (simkit/integrators.py)"},
+    {"name": "steady", "path": "simkit/machines/steady.py", "serves_properties": ["C15"], "kind_free_text": "steady-state machine: FaultyOde stepper seam, relaxation-time sweep, scan rows without steady state"},
     {"name": "edits", "path": "simkit/machines/edits.py", "serves_properties": ["C03"], "kind_free_text": "edit-history machine: online op generator, snapshot/rebuild refinement oracle"},
 ]
 
